@@ -1,0 +1,16 @@
+//go:build verif
+
+// Contracts for /verif (build tag "verif"): //@ comment blocks only.
+package wasmdebug
+
+//@ prop C06 C20
+
+// Source-line lookup for stack traces (debug/dwarf underneath): assumed to touch only its own state.
+//@ func (d *DWARFLines) Line(instructionOffset uint64) (ret []string)
+//@   trusted
+//@   modifies obj(d)
+
+//@ func NewErrorBuilder() ErrorBuilder
+//@   trusted
+//@   ensures r0 != nil
+//@   modifies nothing
